@@ -61,7 +61,7 @@ def run(repo, res):
             res.check('C12-R2', '%s cannot introduce duplicates' % fi.qual, ok, fi.rel, r.lineno,
                       'assist does not remove duplicates and %s returns `%s`, which may contain duplicates (%s)'
                       % (fi.qual, unparse(r.value), why), nontrivial=False)
-    res.count('attr_list_impls', nal, floor=4)
+    res.count('attr_list_impls', nal, floor=2)   # Object's default and at least one override
     from .. import resolve_model as M
     M.check_merged_dict(repo, res, 'C12-R2')
     # ---- R3 the marker cannot reach the proposals -----------------------------------------------------
